@@ -102,16 +102,16 @@ def certOf (name : String) (A : Aut) (params : Sexp) : Sexp :=
   match name, cls with
   | "minimise", some (x, y) =>
     match DFTA.minimiseState A x y (A.states.length + 2) with
-    | some st => ofBool (DFTA.congruenceCert A (fun q => tup (DFTA.clsTuple st q)) (DFTA.allStates A))
+    | some st => ofBool (DFTA.congruenceCert A (fun q => tup (DFTA.clsTuple st q)) (DFTA.stateSet A))
     | none => .atom "-"
   | "minimise_map", _ =>
     match DFTA.minimiseState A c0 c1 (A.states.length + 2) with
-    | some st => ofBool (DFTA.congruenceCert A (fun q => tup (.node "m" [] :: DFTA.clsTuple st q)) (DFTA.allStates A))
+    | some st => ofBool (DFTA.congruenceCert A (fun q => tup (.node "m" [] :: DFTA.clsTuple st q)) (DFTA.stateSet A))
     | none => .atom "-"
   | _, _ => .atom "-"
 
 def handle : Sexp → Option Sexp
-  | .list [.atom "c07.op", name, a, b, params, depth, .list alpha, .list xtrees, .list reads] => do
+  | .list [.atom "c07.op", name, a, b, params, depth, .list alpha, .list xtrees, .list reads, nonce] => do
       let name ← name.string?
       let A ← decAut a
       let B ← match b with
@@ -125,7 +125,7 @@ def handle : Sexp → Option Sexp
         | _ => none) reads
       let (res, spec) ← applyOp name A B params
       match res with
-      | none => pure (.list [.atom "fail", .str "fuel"])
+      | none => pure (.list [.atom "fail", .str "fuel", nonce])
       | some R =>
         let ts := treesUpTo alpha d
         pure (.list [.atom "ok", encAut R, .list (R.states.map encQ),
@@ -133,7 +133,7 @@ def handle : Sexp → Option Sexp
           bitString (xt.map R.accepts), bitString (xt.map spec),
           .list (rd.map (fun lq => match R.read lq.1 lq.2 with
             | some q => encQ q
-            | none => .atom "none")), certOf name A params])
+            | none => .atom "none")), certOf name A params, nonce])
   | _ => none
 
 end PS.C07
